@@ -65,6 +65,25 @@ Proof.
         apply in_flat_map in H; destruct H as (k & Hk & Hi); apply in_flat_map; exists k; (split; [exact Hk|]); apply (HF k Hk); [left|right]; exact Hi.
 Qed.
 
+(* the other streams' nodes reachable from the copy are those reachable from the caller's tree: the same objects, all of them, in
+   the same order - a back end that walks the copied lambda finds the datasets, executors and metadata it would have found *)
+Lemma copy_list_attached l : Forall (fun t => forall n, attached (fst (copy t n)) = attached t) l ->
+  forall n, flat_map attached (fst (copy_list l n)) = flat_map attached l.
+Proof.
+  induction l as [|k l IH]; intros HF n; [reflexivity|].
+  inversion HF as [|x y Hk Hl]; subst. rewrite copy_list_cons.
+  destruct (copy k n) as [k' n1] eqn:Ek. specialize (IH Hl n1). destruct (copy_list l n1) as [l' n2] eqn:El.
+  cbn [fst flat_map] in *. specialize (Hk n). rewrite Ek in Hk. cbn [fst] in Hk. rewrite Hk, IH. reflexivity.
+Qed.
+
+Theorem copy_keeps_all_attached : forall t n, attached (fst (copy t n)) = attached t.
+Proof.
+  apply (ntree_ind' (fun t => forall n, attached (fst (copy t n)) = attached t)).
+  intros i ats c ks HF n. rewrite copy_unfold. destruct (carries ats) eqn:Hc; [reflexivity|].
+  pose proof (copy_list_attached ks HF (S n)) as L. destruct (copy_list ks (S n)) as [ks' n'] eqn:El.
+  cbn [fst attached] in *. rewrite Hc. exact L.
+Qed.
+
 Example own_of_copies :
   own (fst (copy ex_lambda 9)) = [9; 10; 11; 12; 13; 14; 15; 16; 17] /\
   own (fst (copy ex_query_in_lambda 6)) = [6; 7; 8].
